@@ -21,7 +21,7 @@ type Case struct {
 	CaseMask   uint64     `json:"case_mask"`
 	// Prior names a sibling of the sequence (same length, same ends, changed in the middle) that is
 	// hashed first, under every flag pair, with its result discarded: the invariances must hold whatever
-	// was hashed before. "" | point | swap | block
+	// was hashed before. "" | point | swap | block | first | last
 	Prior    string `json:"prior,omitempty"`
 	PriorPos int    `json:"prior_pos,omitempty"`
 	// Only (for sequences above 20 000 letters, to bound the cost of a case): the flag pairs judged, as
@@ -57,6 +57,10 @@ func sibling(s, kind string, pos int) string {
 		return 'A'
 	}
 	switch kind {
+	case "first":
+		b[0] = next(b[0])
+	case "last":
+		b[n-1] = next(b[n-1])
 	case "point":
 		b[p] = next(b[p])
 	case "swap":
@@ -294,7 +298,7 @@ func gen(t *rapid.T) Case {
 	}
 	n := len(c.Seq.String())
 	if rapid.IntRange(0, 2).Draw(t, "with_prior") == 0 && n >= 3 {
-		c.Prior = rapid.SampledFrom([]string{"point", "point", "swap", "block"}).Draw(t, "prior")
+		c.Prior = rapid.SampledFrom([]string{"point", "point", "swap", "block", "first", "last"}).Draw(t, "prior")
 		// mostly in the middle half, so that both ends stay as they are
 		if rapid.IntRange(0, 3).Draw(t, "prior_anywhere") == 0 {
 			c.PriorPos = rapid.IntRange(0, n-1).Draw(t, "prior_pos")
